@@ -1,12 +1,12 @@
 (** C18 — comparison series depend only on the result set; bootstrap summaries
     are sane; date normalisation.  Statements only; proofs are in
-    Proofs/{Series,SeriesPerm,SeriesWitness,SeriesSpec,Bootstrap,BootstrapHull,
+    Proofs/{Series,SeriesPerm,SeriesWitness,SeriesSpec,SeriesSpelling,Bootstrap,BootstrapHull,
     PercentileReal,BootstrapPercentile,Dates,DatesOrder}.v. *)
 From Coq Require Import Permutation Reals.
 From Flocq Require Import Core BinarySingleNaN.
 From Perf Require Import Base.Bytes Base.B64 Base.Usort Model.Dates Model.Bootstrap Model.BootstrapSpec Model.Series Model.SeriesSpec
      Proofs.Dates Proofs.DatesOrder Proofs.Bootstrap Proofs.Series Proofs.SeriesPerm Proofs.SeriesWitness
-     Proofs.SeriesSpec Proofs.B64Flocq Proofs.LegacyMean Proofs.PercentileReal Proofs.BootstrapHull Proofs.BootstrapPercentile.
+     Proofs.SeriesSpec Proofs.SeriesSpelling Proofs.B64Flocq Proofs.LegacyMean Proofs.PercentileReal Proofs.BootstrapHull Proofs.BootstrapPercentile.
 Local Open Scope Z_scope.
 
 (** * dates *)
@@ -112,6 +112,90 @@ Theorem C18_series_meets_spec : forall combine rs en,
   canon (all_comparison_series combine (adds rs) en) = spec_series combine rs.
 Proof. exact series_meets_spec. Qed.
 Print Assumptions C18_series_meets_spec.
+
+(** ** the final pass: both samples of every cell that has a denominator are
+    returned SORTED - under DUPE_COMBINE a point measured by several experiments
+    whose values interleave carries the sorted multiset, not the concatenation
+    of the per-experiment samples (the model's raw output, no [canon]) *)
+Theorem C18_final_samples_sorted : forall combine b e l ser c,
+  all_comparison_series combine b e = Some l -> In ser l -> In c (se_cells ser) -> oc_den c <> [] ->
+  vsort (oc_num c) = oc_num c /\ vsort (oc_den c) = oc_den c.
+Proof. exact final_samples_sorted. Qed.
+Print Assumptions C18_final_samples_sorted.
+
+(** ** summaries are reproducible across add orders: the bootstrap seed of
+    every cell (a function of the sample values IN ORDER; [cell_seed], for a
+    cell with a denominator the seed of the samples as returned:
+    [C18_cell_seed_raw]) is the same for every add order and map enumeration;
+    with the seed, the math/rand stream and hence the whole summary
+    ([ratio] is a function of samples, confidence, N and stream) *)
+Theorem C18_cell_seed_raw : forall combine b e l ser c,
+  all_comparison_series combine b e = Some l -> In ser l -> In c (se_cells ser) -> oc_den c <> [] ->
+  cell_seed c = bootstrap_seed (oc_num c) (oc_den c).
+Proof. exact cell_seed_raw. Qed.
+
+Theorem C18_seeds_perm_invariant : forall combine rs rs' en en' l l',
+  WFset rs -> Permutation rs rs' ->
+  valid_enum (adds rs) en -> valid_enum (adds rs') en' ->
+  all_comparison_series combine (adds rs) en = Some l ->
+  all_comparison_series combine (adds rs') en' = Some l' ->
+  seeds l = seeds l'.
+Proof. exact seeds_perm_invariant. Qed.
+Print Assumptions C18_seeds_perm_invariant.
+
+(** ** spellings of one instant: result sets that differ only in how series
+    stamps are spelled (same normalised string: [sp_eqv]) have the same series,
+    for every enumeration of the maps - in particular the series string of a
+    hash does not depend on which spelling was added first *)
+Theorem C18_series_spelling_invariant : forall combine rs rs' e,
+  Forall2 sp_eqv rs rs' ->
+  all_comparison_series combine (adds rs) e = all_comparison_series combine (adds rs') e.
+Proof. exact series_spelling_invariant. Qed.
+Print Assumptions C18_series_spelling_invariant.
+
+(** the specification is met, and the series are add-order independent, under
+    the weaker well-formedness [WFset_norm]: a numerator hash has one series
+    INSTANT (WFset asks for one stamp TEXT); the correspondence run gates on
+    its executable form [wf_a_norm && wf_b && wf_c && wf_d] *)
+Theorem C18_series_meets_spec_spellings : forall combine rs en,
+  WFset_norm rs -> valid_enum (adds rs) en ->
+  canon (all_comparison_series combine (adds rs) en) = spec_series combine rs.
+Proof. exact series_meets_spec_norm. Qed.
+Print Assumptions C18_series_meets_spec_spellings.
+
+Theorem C18_series_perm_invariant_spellings : forall combine rs rs' en en',
+  WFset_norm rs -> Permutation rs rs' ->
+  valid_enum (adds rs) en -> valid_enum (adds rs') en' ->
+  canon (all_comparison_series combine (adds rs) en) =
+  canon (all_comparison_series combine (adds rs') en').
+Proof. exact series_perm_invariant_norm. Qed.
+Print Assumptions C18_series_perm_invariant_spellings.
+
+Theorem C18_wfset_norm_b_sound : forall rs,
+  wf_a_norm rs && wf_b rs && wf_c rs && wf_d rs = true -> WFset_norm rs.
+Proof. exact wfset_norm_b_sound. Qed.
+
+Theorem C18_wfset_is_norm : forall rs, WFset rs -> WFset_norm rs.
+Proof. exact WFset_is_norm. Qed.
+
+(** non-vacuity: one hash whose two numerators spell its series instant
+    differently (compact layout, +00:00 with a zero fraction) is in WFset_norm
+    but not in WFset, and gives ONE series point in either add order *)
+Example C18_spellings_example :
+  let rs := [mk e1 s1 RDen "h" "d" 1; mk e1 s1 RNum "h" "d" 2;
+             mk e1 (bs "2021-12-01T00:00:00.000+00:00") RNum "h" "d" 3] in
+  WFset_norm rs /\ ~ WFset rs /\
+  canon (all_comparison_series true (adds rs) (first_enum rs)) = spec_series true rs /\
+  canon (all_comparison_series true (adds (rev rs)) (first_enum (rev rs))) = spec_series true rs /\
+  option_map (map se_series) (spec_series true rs) = Some [[bs "2021-12-01T00:00:00+00:00"]].
+Proof.
+  cbv zeta. split; [apply wfset_norm_b_sound; vm_compute; reflexivity|].
+  split; [|repeat split; vm_compute; reflexivity].
+  intros [H _ _ _].
+  specialize (H (mk e1 s1 RNum "h" "d" 2) (mk e1 (bs "2021-12-01T00:00:00.000+00:00") RNum "h" "d" 3)).
+  cbn in H. specialize (H (or_intror (or_introl eq_refl)) (or_intror (or_intror (or_introl eq_refl))) eq_refl eq_refl eq_refl).
+  vm_compute in H. discriminate H.
+Qed.
 
 (** the i-th series is that of the i-th (unit, table) pair in sorted order *)
 Theorem C18_series_units : forall combine rs en l,
